@@ -44,8 +44,13 @@ fn user_frame(mode: &Mode, i: usize) -> Vec<u8> {
 
 /// drive a tokio connection by hand: poll the read future, drop it at the chosen polls, start a new one
 pub fn drive(c: &DropCase, with_drops: bool) -> Outcome {
+    // every other write script is served by a transport that announces vectored writes (tokio's TcpStream does)
+    drive_on(c, with_drops, c.session.writes.len() % 2 == 1)
+}
+
+pub fn drive_on(c: &DropCase, with_drops: bool, vectored: bool) -> Outcome {
     let mode = c.session.mode();
-    let t = Transport::new(c.session.steps.clone(), c.session.writes.clone());
+    let t = Transport::new(c.session.steps.clone(), c.session.writes.clone()).vectored(vectored);
     let rt = tokio_runtime();
     let t2 = t.clone();
     let max_results = boundaries(&c.session.stream(), &mode).len() + c.session.steps.len() + 6;
